@@ -84,7 +84,11 @@ func suiteC15(r *Run) {
 					nontrivial = true
 				} else {
 					answers = append(answers, "ok")
-					ref.RegisterService(d, h)
+					// the reference server gets the valid sub-history as the SPECIFICATION defines it (first
+					// well-typed registration per name) — it would log.Fatal on a duplicate the implementation let through
+					if !dup && typeOK {
+						ref.RegisterService(d, h)
+					}
 				}
 				c := map[string]interface{}{"carrier": carrier, "history": strings.Join(ops, ";")}
 				if (dup || !typeOK) != (pan != "") {
